@@ -128,6 +128,9 @@ def run(ctx):
             nca += 1
             mutable = isinstance(val, (ast.List, ast.Dict, ast.Set, ast.ListComp, ast.DictComp, ast.SetComp)) or \
                 (isinstance(val, ast.Call) and norm(val.func) in ('list', 'dict', 'set', 'OrderedDict', 'defaultdict'))
+            if mutable and not [w for w in ef.writers(c.qual, name) if not (w.func.is_module_body or w.func is c.module.body_func)] \
+                    and not [w for w in ef.writers('class:' + c.qual, name)]:
+                mutable = False         # a class-level table that nothing ever writes to or mutates is a constant, not shared state
             ctx.check(not mutable, 'C04.1', 'class-attr:%s.%s' % (c.qual, name), '%s:%s %s' % (c.module.relpath, c.node.lineno, c.name),
                       'class attribute %s.%s is not a shared container' % (c.name, name),
                       'class-level container %s.%s = %s is shared by all instances (all connections)' % (c.name, name, norm(val)[:60]))
